@@ -393,7 +393,7 @@ fn main() {
             }
         }
         facts_seen.entry(set.programs.len()).or_default().extend(r.outcomes.iter().cloned());
-        if samples.len() < 4 && (r.outcomes.len() > 1 || idx % 50 == 0) {
+        if samples.len() < 4 && (samples.is_empty() || r.outcomes.len() > 1 || idx % 50 == 0) {
             let mut s = J::obj();
             s.set("set", J::s(set.text()));
             s.set("executions", J::i(r.executions));
